@@ -22,6 +22,10 @@ pub enum Op {
     CpuWrite(u8, u8, u8),
     /// CPU loads from addr using addressing mode m
     CpuRead(u8, u8),
+    /// CPU loads from input register 0xFC+r (or, r = 4, the board's input port 0xF0) using mode m
+    /// while the register is set from outside to `v` right before edge `k` of the helper program:
+    /// the load must return what the register held at the edge on which the bus read happened
+    CpuReadRace(u8, u8, u8, u8),
 }
 
 #[derive(Clone, Debug, Serialize, Deserialize)]
@@ -146,6 +150,55 @@ fn cpu_read(m: &mut Machine, rf: &mut Ref, addr: u8, mode: u8) -> Option<u8> {
     }
 }
 
+/// returns (value loaded, index of the edge that performed the bus read of `addr`, edges run)
+fn cpu_read_race(m: &mut Machine, rf: &mut Ref, r: u8, mode: u8, k: u8, val: u8) -> Option<(u8, Option<u32>, u32)> {
+    let addr = if r >= 4 { 0xF0 } else { 0xFC + r };
+    let code: Vec<u8> = match mode {
+        1 => vec![0xFB, addr, 0x11, 0xF5, 0x10, 0x01],
+        2 => vec![0xFB, addr, 0x11, 0xF9, 0x10, 0x01],
+        3 => vec![0xFB, PTR_CELL, 0x11, 0xFD, 0x10, 0x01],
+        _ => vec![0xFF, addr, 0x10, 0x01],
+    };
+    if mode == 3 {
+        m.raw_mut().bus_mut().memory_mut()[PTR_CELL as usize] = addr;
+        rf.ram[PTR_CELL as usize] = addr;
+    }
+    m.cpu_reset();
+    rf.cpu_reset();
+    for (i, b) in code.iter().enumerate() {
+        m.raw_mut().bus_mut().memory_mut()[i] = *b;
+        rf.ram[i] = *b;
+    }
+    let stim = if r >= 4 { Stim::Di(val) } else { Stim::InReg(r, val) };
+    let mut read_edge = None;
+    let mut e = 0u32;
+    let mut applied = false;
+    while e < 300 {
+        if e == k as u32 {
+            stim.apply(m);
+            applied = true;
+        }
+        m.trigger_key_clock();
+        if m.state() != State::Running {
+            break;
+        }
+        let sg = m.signals();
+        if sg.busen() && !sg.buswr() && *m.registers().get(sg.selected_register_a()) == addr && read_edge.is_none() {
+            read_edge = Some(e);
+        }
+        e += 1;
+    }
+    if !applied {
+        stim.apply(m);
+    }
+    ref_apply_env(rf, &stim);
+    if m.state() == State::Stopped {
+        Some((m.registers().content()[0], read_edge, e))
+    } else {
+        None
+    }
+}
+
 fn acls(a: u8) -> u64 {
     match a {
         0..=0xEE => 0,
@@ -236,12 +289,35 @@ fn run_history(ops: &[Op], ctx: &mut Ctx) -> Result<(), Violation> {
                     }
                 }
             }
+            Op::CpuReadRace(r, mode, k, val) => {
+                let addr = if *r >= 4 { 0xF0 } else { 0xFC + *r };
+                let old = m.bus().read(addr);
+                let (got, read_edge, edges) = cpu_read_race(&mut m, &mut rf, *r, *mode, *k, *val).ok_or_else(|| v("harness", i, "helper program did not stop".into()))?;
+                ctx.cov.fault("CPU-READ-RACING-SETTER");
+                let re = read_edge.ok_or_else(|| v("harness", i, "no bus read of the register seen in the helper program".into()))?;
+                let want = if (*k as u32) <= re { *val } else { old };
+                if (*k as u32) <= re && (*k as u32) > 0 && old != *val {
+                    ctx.cov.probe("input-changed-inside-the-reading-instruction-before-the-read");
+                }
+                let _ = edges;
+                if got != want {
+                    return Err(v(
+                        "address-map",
+                        i,
+                        format!(
+                            "the CPU read 0x{:02X} from 0x{:02X} (mode {}); the register held 0x{:02X} and was set to 0x{:02X} from outside right before edge {} of the helper program, the bus read happened on edge {}: expected 0x{:02X}",
+                            got, addr, mode, old, val, k, re, want
+                        ),
+                    ));
+                }
+            }
         }
         ctx.cov.distinct(mix(i as u64 & 0, match op {
             Op::S(Stim::BusWrite(a, _)) => mix(1, acls(*a)),
             Op::S(Stim::BusRead(a)) => mix(2, acls(*a)),
             Op::CpuWrite(a, _, md) => mix(3 + *md as u64 * 16, acls(*a)),
             Op::CpuRead(a, md) => mix(4 + *md as u64 * 16, acls(*a)),
+            Op::CpuReadRace(r, md, k, _) => mix(6 + *md as u64 * 16, mix(*r as u64, (*k).min(20) as u64)),
             Op::S(s) => mix(5, s.kind_id()),
         }));
         if let Some(d) = map_diff(&m, &rf) {
@@ -342,7 +418,14 @@ impl Check for C10 {
                 0..=3 => Op::S(Stim::BusWrite(any_addr(rng), rng.u8())),
                 4..=6 => Op::S(Stim::BusRead(any_addr(rng))),
                 7..=9 => Op::CpuWrite(any_addr(rng), rng.u8(), rng.below(4) as u8),
-                10..=11 => Op::CpuRead(any_addr(rng), rng.below(4) as u8),
+                10 => Op::CpuRead(any_addr(rng), rng.below(4) as u8),
+                11 => {
+                    if rng.bool() {
+                        Op::CpuRead(any_addr(rng), rng.below(4) as u8)
+                    } else {
+                        Op::CpuReadRace(rng.below(5) as u8, rng.below(4) as u8, rng.below(26) as u8, rng.u8())
+                    }
+                }
                 12 => Op::S(Stim::InReg(rng.below(4) as u8, rng.u8())),
                 13 => Op::S(Stim::Di(rng.u8())),
                 14 => Op::S(Stim::KeyInt),
@@ -390,6 +473,11 @@ impl Check for C10 {
                     Op::CpuRead(a, _) => {
                         let mut c = ops.clone();
                         c[i] = Op::S(Stim::BusRead(*a));
+                        out.push(Scn::History(c));
+                    }
+                    Op::CpuReadRace(r, md, k, val) if *md != 0 => {
+                        let mut c = ops.clone();
+                        c[i] = Op::CpuReadRace(*r, 0, *k, *val);
                         out.push(Scn::History(c));
                     }
                     _ => {}
